@@ -319,6 +319,12 @@ func c09ExportCase(rec *vlib.Rec, s *BgpServer, r *rand.Rand, idx, m int, sc *c0
 	if old != nil {
 		rec.Count("exports_with_old_best", 1)
 	}
+	if dst.spec.Negotiated {
+		rec.Count("peer-as-unset:target:"+dk.String(), 1)
+	}
+	if src != nil && src.spec.Negotiated {
+		rec.Count("peer-as-unset:source:"+sk.String(), 1)
+	}
 	snapStored, snapOld := c09SnapPath(stored), c09SnapPath(old)
 
 	decide := func(level string, exp *refmodel.C09Exp, res *table.Path) (advertised bool) {
@@ -356,7 +362,24 @@ func c09ExportCase(rec *vlib.Rec, s *BgpServer, r *rand.Rand, idx, m int, sc *c0
 	if rec.Guard("c09:server:BgpServer.filterpath", func() any { return wit() }, func() { res2 = s.filterpath(dst.p, stored, old) }) {
 		return
 	}
-	if decide("pipeline", exp, res2) {
+	// does the result agree with an expectation (decision and attributes), without reporting
+	agrees := func(e *refmodel.C09Exp, res *table.Path) bool {
+		adv := res != nil && !res.IsWithdraw
+		if e.Advertise == refmodel.C09MustNot && adv || e.Advertise == refmodel.C09Must && !adv {
+			return false
+		}
+		return !adv || len(refmodel.C09Check(e, in, refmodel.C09Observe(res.GetPathAttrs()), dst.spec.LocalAddr)) == 0
+	}
+	if dst.spec.ReplacePeerAS && !agrees(exp, res2) && agrees(expPre, res2) {
+		// one defect class: the result is exactly what the peer would get without the option
+		class := "peer-as-configured"
+		if dst.spec.Negotiated {
+			class = "peer-as-unset"
+		}
+		w := wit()
+		w["result"] = c09ResText(res2)
+		rec.Violation("c09:server:replace-peer-as-not-applied:"+class, fmt.Sprintf("replace-peer-as is configured for the %s peer (AS %d), the result is what it gets without the option: %s", dk, dst.spec.AS, c09ResText(res2)), w)
+	} else if decide("pipeline", exp, res2) {
 		obs := refmodel.C09Observe(res2.GetPathAttrs())
 		mm := refmodel.C09Check(exp, in, obs, dst.spec.LocalAddr)
 		seen := map[string]bool{}
@@ -478,6 +501,9 @@ func c09InboundCase(rec *vlib.Rec, r *rand.Rand, idx, m int, sc *c09Scenario, fr
 	rec.Count("inbound_updates", 1)
 	rec.Count("inbound:"+rule, 1)
 	rec.Count("inbound_from:"+from.spec.Kind.String(), 1)
+	if from.spec.Negotiated {
+		rec.Count("peer-as-unset:inbound:"+from.spec.Kind.String(), 1)
+	}
 	var paths []*table.Path
 	if rec.Guard("c09:server:handleUpdate", func() any { return wit() }, func() {
 		paths, _, _ = from.p.handleUpdate(&fsmMsg{MsgType: fsmMsgBGPMessage, MsgData: msg, timestamp: time.Unix(1000, 0)})
